@@ -209,12 +209,12 @@ func (c *converter) Continue() error {
 }
 
 func (c *converter) Print(values []string) error {
-	c.addLine(fmt.Sprintf("echo \"%s\"", strings.Join(values, " ")))
+	c.addLine(fmt.Sprintf("printf '%%s\\n' \"%s\"", strings.Join(values, " "))) // printf does not take the value for an option (-n, -e).
 	return nil
 }
 
 func (c *converter) Panic(value string) error {
-	c.addLine(fmt.Sprintf("echo \"%s\"", value))
+	c.addLine(fmt.Sprintf("printf '%%s\\n' \"%s\"", value))
 	c.addLine("exit 1")
 	return nil
 }
@@ -223,7 +223,7 @@ func (c *converter) WriteFile(path string, content string, append string) error 
 	helper := c.nextHelperVar()
 
 	c.VarAssignment(helper, fmt.Sprintf(`$(if [ "%s" -eq "%s" ]; then echo ">>"; else echo ">"; fi)`, append, transpiler.BoolToString(true)), false)
-	c.addLine(fmt.Sprintf(`eval "echo \"%s\" %s %s"`, content, c.varEvaluationString(helper, false), path))
+	c.addLine(fmt.Sprintf(`eval "printf '%%s\\n' \"%s\" %s %s"`, content, c.varEvaluationString(helper, false), path))
 	return nil
 }
 
@@ -579,7 +579,7 @@ func (c *converter) sliceAssignmentString(name string, index string, value strin
 }
 
 func (c *converter) sliceEvaluationString(name string, index string) string {
-	return fmt.Sprintf(`$(eval "echo \"\${%s[%s]}\"")`, name, index) // Quote the element to prevent word splitting.
+	return fmt.Sprintf(`$(eval "printf '%%s\\n' \"\${%s[%s]}\"")`, name, index) // Quote the element to prevent word splitting.
 }
 
 func (c *converter) sliceLenString(name string) string {
